@@ -47,6 +47,8 @@ type Profile struct {
 	SizeFlip     bool   // a sink symbol is loaded under a size limit in some nodes
 	EndAfterInput bool  // end nodes of the shape HALT; INCMP t 1; HALT
 	FallMove     bool   // menu nodes that end in a MOVE behind their INCMP lines
+	PoolFlags    bool   // with many flags: CATCH/CROAK and external code draw from a small pool of indices (boundaries favoured), so that they meet
+	flagPool     []uint32
 	HugePages    bool   // accepted values of about 65535 bytes (pages just over 64 KiB)
 	PreludeIncmp bool   // INCMP lines before a node's HALT
 	ManySyms     bool   // up to 28 external symbols, nodes that load up to 20 of them
@@ -72,6 +74,20 @@ type genNode struct {
 
 // Generate draws an application from the tape.
 func Generate(t *tape.Tape, p Profile) *App {
+	if p.PoolFlags && p.FlagCount > 16 {
+		top := 8 + p.FlagCount - 1
+		cands := []uint32{8, 15, 16, 255, 256, 263, 264, 520, 65535, 65536, 65543, 65544, 65800, top, top - 1, top - 7, top - 8}
+		for len(p.flagPool) < 4 {
+			f := 8 + uint32(t.Int(int(p.FlagCount)))
+			if t.Chance(2, 3) {
+				f = cands[t.Int(len(cands))]
+			}
+			if f < 8 || f > top {
+				f = top
+			}
+			p.flagPool = append(p.flagPool, f)
+		}
+	}
 	a := &App{Root: "root", Labels: map[string]map[string]string{}}
 	t.Begin("app")
 	defer t.End()
@@ -259,7 +275,7 @@ func Generate(t *tape.Tape, p Profile) *App {
 		if p.FlagCount == 0 {
 			return 8 // never used: callers check FlagCount
 		}
-		return 8 + uint32(t.Int(int(p.FlagCount)))
+		return p.pickFlag(t)
 	}
 	postTarget := func(i int, browse bool) string {
 		pt := postTargets(i)
@@ -682,6 +698,14 @@ func Generate(t *tape.Tape, p Profile) *App {
 	return a
 }
 
+// pickFlag draws a client flag index: from the pool when there is one, else uniformly.
+func (p Profile) pickFlag(t *tape.Tape) uint32 {
+	if len(p.flagPool) > 0 {
+		return p.flagPool[t.Int(len(p.flagPool))]
+	}
+	return 8 + uint32(t.Int(int(p.FlagCount)))
+}
+
 func (a *App) extByName(s string) *ExtSym {
 	for _, e := range a.Ext {
 		if e.Name == s {
@@ -776,11 +800,11 @@ func genBehav(t *tape.Tape, p Profile, e *ExtSym) ExtBehav {
 	if p.ExtFlags && p.FlagCount > 0 {
 		ns := t.Weighted(3, 2, 1)
 		for i := 0; i < ns; i++ {
-			b.Set = append(b.Set, 8+uint32(t.Int(int(p.FlagCount))))
+			b.Set = append(b.Set, p.pickFlag(t))
 		}
 		nr := t.Weighted(3, 2, 1)
 		for i := 0; i < nr; i++ {
-			b.Reset = append(b.Reset, 8+uint32(t.Int(int(p.FlagCount))))
+			b.Reset = append(b.Reset, p.pickFlag(t))
 		}
 	}
 	if p.ExtReserved && t.Chance(1, 3) {
